@@ -140,7 +140,7 @@ func c08prop(r *simkit.Run) {
 	rbody := rapid.SampledFrom([]string{"", "ok", "0123456789"}).Draw(rt, "resp-body")
 	fmt.Fprintf(&resp, "Content-Length: %d\r\n\r\n%s", len(rbody), rbody)
 
-	res := runExchange(exchangeSpec{rawRequest: []byte(raw.String()), peerAddr: peer, tlsOn: tlsOn, passHost: passHost,
+	res := runExchange(exchangeSpec{rawRequest: []byte(raw.String()), peerAddr: peer, tlsOn: tlsOn, passHost: passHost, backendURLExtras: rapid.IntRange(0, 2).Draw(rt, "backend-url-with-path-and-query") == 0,
 		plan: backendPlan{response: []byte(resp.String()), cutAt: -1}})
 	ctxt := fmt.Sprintf("[request %q from %s tls=%v passHost=%v]", raw.String(), peer, tlsOn, passHost)
 	if res.hung != "" {
